@@ -1,8 +1,10 @@
 (* C17 model runner.  One case per line:
-   <id> T|A|W <maxretry> <minw> <maxw> <tbl> <dflt> <cancel> <bodykind> <hexbody> <script>
+   <id> T|A|W <maxretry> <minw> <maxw> <tbl> <dflt> <cancel> <bodykind> <hexbody> <script> <opts>
+        opts    harness-only options the code under test must not depend on (u = ContentLength left
+                unknown, method=..., preauth = auth client stack with Authorization preset); ignored here
         tbl     comma separated integers, or -
         cancel  - | <tc>:c | <tc>:d
-        bodykind N | R | O | G<k>      (A only: prefix M = manifest push through an auth client, m = through another client)
+        bodykind [M|m]N | R | O | G<k>      (prefix M = manifest push through an auth client, m = through another client)
         script  beh;beh;... or -   beh = <out>/<read>/<lat>  out = S<code>:<hexRetryAfter>:<chal> | TO | ER  read = * | <k>
    <id> D <maxretry> <minw> <maxw> <tbl> <dflt> <attempt> <out>
    <id> B <D|P> <maxretry> <minw> <maxw> <base> <fnum> <fden> <jnum> <jden> <attempt> <out> <seen>
@@ -106,7 +108,7 @@ let guarded = exp_backoff_guarded
 let () =
   iter_lines (fun l ->
     match split_ws l with
-    | [id; ("T" | "A" | "W") as op; mr; mn; mx; tbl; dflt; cn; kind; body; script] ->
+    | [id; ("T" | "A" | "W") as op; mr; mn; mx; tbl; dflt; cn; kind; body; script; _opts] ->
       let p = table_policy (z_of_string mr) (z_of_string mn) (z_of_string mx)
           (List.map z_of_string (split_on ',' tbl)) (z_of_string dflt) in
       let manifest, kind' =
